@@ -48,7 +48,7 @@ static bool check_state(report& r, std::vector<T> const& w, std::string const& i
         sum += x;
     }
     long double const tol = 4 * w.size() * static_cast<long double>(std::numeric_limits<T>::epsilon());
-    if (std::fabs(sum - 1.0L) > tol)
+    if (!(std::fabs(sum - 1.0L) <= tol))
     {
         r.violate("weights-do-not-sum-to-one", id, how + " -> weights " + show(w) + " sum-1=" + vf::dec(sum - 1.0L));
         return false;
@@ -115,7 +115,7 @@ static bool check_transition(report& r, std::vector<T> const& w, std::vector<T> 
         long double const want = t[i] / s2;
         long double const got = nw[i];
         // a quotient v/s within rounding of the floor may be floored or not: both are within tolerance
-        if (std::fabs(got - want) > 32 * eps * want + static_cast<long double>(std::numeric_limits<T>::min()))
+        if (!(std::fabs(got - want) <= 32 * eps * want + static_cast<long double>(std::numeric_limits<T>::min())))
         {
             r.violate("update-rule", id, how + " -> " + show(nw) + "; channel " + std::to_string(i) + " expected "
                 + vf::dec(want) + " got " + vf::dec(got));
